@@ -61,7 +61,7 @@ func (sim) Explain(prop string, st map[string]int64) string {
 		probes = []string{"probe.parked-between-commit-and-callback", "probe.same-branch-concurrent", "probe.dryrun-derived-change", "probe.psbt-change-issued", "probe.index-consumed-by-failed-call", "probe.porcupine-checked"}
 	case "C16":
 		probes = []string{"probe.paid-last-index-of-window", "probe.spend-of-recovered-output", "probe.recovery-interrupted", "probe.recovery-interrupted-midway", "probe.lock-during-recovery",
-			"probe.recovery-locked", "probe.recovery-unlocked", "probe.batch-boundary-crossed", "probe.c16-checked"}
+			"probe.recovery-locked", "probe.recovery-unlocked", "probe.batch-boundary-crossed", "probe.c16-checked", "probe.checked-after-resumed-recovery"}
 	case "C06":
 		probes = []string{"probe.two-senders-in-flight", "probe.spent-mature-coinbase", "probe.spent-unconfirmed-coin", "probe.explicit-ineligible:locked", "probe.explicit-ineligible:leased",
 			"probe.explicit-ineligible:other-account", "probe.explicit-ineligible:other-scope", "probe.explicit-ineligible:too-few-confirmations", "probe.explicit-ineligible:immature-coinbase",
